@@ -75,7 +75,7 @@ def _validate(trace_module, trace_path, shards=None, timeout=900):
 
 
 # ============================================================================ C42
-_VOCAB_Q = dict(F=["foo", "Foo", "_foo", "X_foo", "foo_", "foo_1", "get_foo", "set_foo", "proto_reflect", "descriptor"],
+_VOCAB_Q = dict(F=["foo", "Foo", "foo_", "foo_1", "get_foo", "set_foo", "proto_reflect", "descriptor"],
                 O=["Foo", "get_foo", "bar"], N=["Foo"], E=[], kinds=["f", "m"], any=2, plain=3)
 _VOCAB_T = dict(F=["foo", "Foo", "_foo", "X_foo", "foo_", "foo_1", "foo_2", "get_foo", "GetFoo", "set_foo", "has_foo", "clear_foo",
                    "which_foo", "build", "reset", "descriptor", "proto_reflect", "proto_message"],
@@ -266,7 +266,7 @@ def c40(res, tier, seed):
     if q:
         configs = [dict(Modes=["in", "fresh"], Perms="{0, 1}", MaxPlan=2, Bases="{0, 13, 31}")]
     else:
-        bases = "{0, 2, 3, 4, 7, 9, 10, 13, 14, 20, 23, 27, 28, 29, 30, 31, 39, 41, 48, 58, 60, 62}"
+        bases = "{0, 2, 3, 4, 9, 10, 13, 14, 20, 27, 28, 30, 31, 39, 58, 62}"
         configs = [dict(Modes=["in", "fresh"], Perms="{0, 1, 2}", MaxPlan=2, Bases=bases),
                    dict(Modes=["in"], Perms="{0, 1, 2}", MaxPlan=3, Bases=bases)]
     for c in configs:
@@ -313,7 +313,7 @@ def c40(res, tier, seed):
                 "reversed%s) on %d linked file sets with rotating parameter combinations (API level x import-path mode x annotate_code), "
                 "response and per-file digests compared; driver: random plans of 6-12 runs (1/6 in fresh processes) over all 69 linked "
                 "file sets and random schemas x 32 parameter combinations, histories validated by Trace_Gen; distinct = (file set, "
-                "parameters, plan shape, error classes)" % ("" if q else ", rotated; plus every in-process plan of <= 3 runs", 3 if q else 22))
+                "parameters, plan shape, error classes)" % ("" if q else ", rotated; plus every in-process plan of <= 3 runs", 3 if q else 16))
     res.assumptions += ["nondeterminism can only be OBSERVED (Go randomises map iteration per range statement and per process); "
                         "the specification cannot force an iteration order, hence level exploration",
                         "requests the plugin refuses before producing a response (no go_package, MessageSet without protolegacy) are "
